@@ -28,6 +28,12 @@ def relayout(t, view):
     return t
 
 
+def view_of(case, salt=""):
+    """memory layout of an operand as a pure function of the case (for modules whose cases carry no explicit 'view' field)"""
+    import json, zlib
+    return VIEWS[zlib.crc32((json.dumps(case, sort_keys=True, default=str) + salt).encode()) % len(VIEWS)]
+
+
 def lie(ltype, data, dtype="float64", shape=None, requires_grad=False, view=None):
     t = torch.tensor(data, dtype=TD[dtype])
     if shape is not None:
